@@ -27,7 +27,8 @@
 (* else runs).                                                              *)
 (*                                                                          *)
 (* Not modelled (cut deliberately): multi-response (AXFR/IXFR) requests and *)
-(* check_stream; StreamTooManyOutstandingQueries (2*count > 65535);         *)
+(* check_stream; how many octets of a request a stalled write has taken;    *)
+(* StreamTooManyOutstandingQueries (2*count > 65535);         *)
 (* StreamLongMessage; callers dropping a request future before it resolves. *)
 EXTENDS ClientMsg, FiniteSets, TLC
 
@@ -40,20 +41,21 @@ CONSTANTS MaxReq,      \* number of request instances (each submitted once)
           Frames,      \* the messages the peer may send (a finite alphabet)
           MaxFrames,   \* bound on the number of messages the peer sends
           EndKinds,    \* which ways of breaking the stream the peer may use:
-                       \* subset of {"eof", "short", "trunc", "wfail"}
+                       \* subset of {"eof", "short", "trunc", "wfail", "stall"}
           Dev          \* named deviations in force, subset of DevNames
 
 VARIABLES vec, count, curr,          \* Queries
           state, keepalive, idle,    \* Status
           reqmsg,                    \* <<>> or <<request being written>>
           chan, wire, rq, rdead,     \* queues; result of the reader future
-          wfail, peerOpen, handles,  \* environment
+          wfail, wstall, peerOpen, handles,  \* environment (wstall: the peer does
+                                     \* not take octets: write() is short, then pending)
           out, closed,               \* observable effects
           asked, sent, done,         \* ghost: per request question, ID, outcomes
           nsub, nframes              \* counters: requests submitted, peer messages
 
 vars == <<vec, count, curr, state, keepalive, idle, reqmsg, chan, wire, rq,
-          rdead, wfail, peerOpen, handles, out, closed, asked, sent, done,
+          rdead, wfail, wstall, peerOpen, handles, out, closed, asked, sent, done,
           nsub, nframes>>
 
 (* D_stream_response_timeout_ignored: Config::set_response_timeout stores   *)
@@ -70,14 +72,14 @@ EffRT(dev) == IF "D_stream_response_timeout_ignored" \in dev THEN DefRT ELSE RT
 Cur == [vec |-> vec, count |-> count, curr |-> curr, state |-> state,
         keepalive |-> keepalive, idle |-> idle, reqmsg |-> reqmsg,
         chan |-> chan, wire |-> wire, rq |-> rq, rdead |-> rdead,
-        wfail |-> wfail, peerOpen |-> peerOpen, handles |-> handles,
+        wfail |-> wfail, wstall |-> wstall, peerOpen |-> peerOpen, handles |-> handles,
         out |-> out, closed |-> closed, asked |-> asked, sent |-> sent,
         done |-> done, nsub |-> nsub, nframes |-> nframes, rt |-> EffRT(Dev)]
 
 Set(s) == /\ vec' = s.vec /\ count' = s.count /\ curr' = s.curr
           /\ state' = s.state /\ keepalive' = s.keepalive /\ idle' = s.idle
           /\ reqmsg' = s.reqmsg /\ chan' = s.chan /\ wire' = s.wire
-          /\ rq' = s.rq /\ rdead' = s.rdead /\ wfail' = s.wfail
+          /\ rq' = s.rq /\ rdead' = s.rdead /\ wfail' = s.wfail /\ wstall' = s.wstall
           /\ peerOpen' = s.peerOpen /\ handles' = s.handles /\ out' = s.out
           /\ closed' = s.closed /\ asked' = s.asked /\ sent' = s.sent
           /\ done' = s.done /\ nsub' = s.nsub /\ nframes' = s.nframes
@@ -89,7 +91,7 @@ St(k, e) == [k |-> k, e |-> e]                  \* e = -1: no timer
 InitState ==
   [vec |-> <<>>, count |-> 0, curr |-> 0, state |-> St("Active", -1),
    keepalive |-> TRUE, idle |-> IdleCfg, reqmsg |-> <<>>, chan |-> <<>>,
-   wire |-> <<>>, rq |-> <<>>, rdead |-> "none", wfail |-> FALSE,
+   wire |-> <<>>, rq |-> <<>>, rdead |-> "none", wfail |-> FALSE, wstall |-> FALSE,
    peerOpen |-> TRUE, handles |-> TRUE, out |-> <<>>, closed |-> FALSE,
    asked |-> [r \in Reqs |-> 0], sent |-> [r \in Reqs |-> -1],
    done |-> [r \in Reqs |-> <<>>], nsub |-> 0, nframes |-> 0, rt |-> EffRT(Dev)]
@@ -237,6 +239,8 @@ PeerEndOp(s, how) ==
 
 PeerWriteFailOp(s) == [s EXCEPT !.wfail = TRUE]
 
+PeerStallOp(s, v) == [s EXCEPT !.wstall = v]
+
 DropOp(s) == [s EXCEPT !.handles = FALSE]
 
 TickOp(s) == IF Up(s) /\ s.state.e >= 0 THEN [s EXCEPT !.state.e = @ + 1] ELSE s
@@ -254,7 +258,9 @@ Pick(s) ==
   ELSE IF ReaderCanMove(s) THEN "reader"
   ELSE IF s.rdead # "none" THEN "readerdone"
   ELSE IF s.rq # <<>> THEN "demux"
-  ELSE IF s.reqmsg # <<>> THEN "write"
+  \* while a request is being written (do_write) no new request is taken
+  \* from the channel; a peer that does not take octets leaves it half written
+  ELSE IF s.reqmsg # <<>> THEN (IF s.wstall /\ ~s.wfail THEN "none" ELSE "write")
   ELSE IF s.chan # <<>> THEN "recv"
   ELSE IF SendersGone(s) THEN "dropped"
   ELSE "none"
@@ -287,6 +293,8 @@ OpsOf(s, qs, frames) ==
         THEN {MkOp("peer", 0, 0, f, "") : f \in frames} ELSE {})
   \cup (IF s.peerOpen THEN {MkOp("end", 0, 0, NoMsg, h) : h \in EndKinds \ {"wfail"}} ELSE {})
   \cup (IF ~s.wfail /\ "wfail" \in EndKinds THEN {MkOp("wfail", 0, 0, NoMsg, "")} ELSE {})
+  \cup (IF "stall" \in EndKinds
+        THEN {MkOp(IF s.wstall THEN "unstall" ELSE "stall", 0, 0, NoMsg, "")} ELSE {})
   \cup (IF s.handles THEN {MkOp("drop", 0, 0, NoMsg, "")} ELSE {})
   \cup {MkOp("tick", 0, 0, NoMsg, "")}
 
@@ -295,6 +303,8 @@ EnvOp(s, o) ==
     [] o.op = "peer"   -> PeerSendOp(s, o.f)
     [] o.op = "end"    -> PeerEndOp(s, o.how)
     [] o.op = "wfail"  -> PeerWriteFailOp(s)
+    [] o.op = "stall"  -> PeerStallOp(s, TRUE)
+    [] o.op = "unstall" -> PeerStallOp(s, FALSE)
     [] o.op = "drop"   -> DropOp(s)
     [] o.op = "tick"   -> TickOp(s)
 
@@ -321,7 +331,7 @@ AlphabetOf(ids, qs, kas) ==
 InitPred ==
   /\ vec = <<>> /\ count = 0 /\ curr = 0 /\ state = St("Active", -1)
   /\ keepalive = TRUE /\ idle = IdleCfg /\ reqmsg = <<>> /\ chan = <<>>
-  /\ wire = <<>> /\ rq = <<>> /\ rdead = "none" /\ wfail = FALSE
+  /\ wire = <<>> /\ rq = <<>> /\ rdead = "none" /\ wfail = FALSE /\ wstall = FALSE
   /\ peerOpen = TRUE /\ handles = TRUE /\ out = <<>> /\ closed = FALSE
   /\ asked = [r \in Reqs |-> 0] /\ sent = [r \in Reqs |-> -1]
   /\ done = [r \in Reqs |-> <<>>] /\ nsub = 0 /\ nframes = 0
@@ -368,6 +378,8 @@ Garbage          == "short" \in EndKinds /\ peerOpen /\ Set(PeerEndOp(Cur, "shor
 Close            == "eof" \in EndKinds /\ peerOpen /\ Set(PeerEndOp(Cur, "eof"))
 CloseInFrame     == "trunc" \in EndKinds /\ peerOpen /\ Set(PeerEndOp(Cur, "trunc"))
 PeerStopsReading == "wfail" \in EndKinds /\ ~wfail /\ Set(PeerWriteFailOp(Cur))
+PeerStalls       == "stall" \in EndKinds /\ ~wstall /\ Set(PeerStallOp(Cur, TRUE))
+PeerResumes      == "stall" \in EndKinds /\ wstall /\ Set(PeerStallOp(Cur, FALSE))
 
 Internal == \/ RecvReq \/ WriteChunk \/ WriteError \/ ReaderFrame \/ ReaderEnd
             \/ ReaderDone \/ Demux \/ ResponseTimeout \/ IdleTimeout
@@ -376,6 +388,7 @@ Internal == \/ RecvReq \/ WriteChunk \/ WriteError \/ ReaderFrame \/ ReaderEnd
 Peer == \/ \E f \in Frames : \/ PeerReply(f) \/ WrongQuestion(f) \/ NotAResponse(f)
                              \/ Duplicate(f) \/ WrongId(f)
         \/ Garbage \/ Close \/ CloseInFrame \/ PeerStopsReading
+        \/ PeerStalls \/ PeerResumes
 
 --------------------------------------------------------------------------
 (* The property *)
